@@ -5,7 +5,7 @@ import math
 from fractions import Fraction
 import z3
 from .values import (Sym, NAN, Vec, Arr, Obj, Opaque, OutOfSubset, is_sym, z3num, z3real, z3bool, mk_bool, mk_num,
-                     kind_of, is_conc_num, nan_of, str_code)
+                     kind_of, is_conc_num, nan_of, str_code, PvObject)
 from .engine import PathEnd, NotPure, RaiseSignal
 from . import ops
 
@@ -119,6 +119,8 @@ def in_range(k, lo, hi):
 def getitem(interp, v, idx, numba=False, node=None):
     from .interp import SliceVal, RangeVal
     ctx = interp.ctx
+    if isinstance(v, PvObject):
+        return v.pv_getitem(interp, idx)
     if isinstance(v, dict):
         if isinstance(idx, Sym):
             return dict_lookup(interp, v, idx)
@@ -359,6 +361,12 @@ def setitem(interp, v, idx, val, numba=False, node=None):
             if v.vbase is not None and isinstance(idx, (int, Sym)) and not isinstance(idx, bool):
                 i = check_index(interp, v, idx, numba, node)
                 return arr_setitem(interp, _root(v), _root_index(v, i), val, numba, node)
+            if (v.vbase is not None and isinstance(idx, tuple) and len(idx) == 2 and isinstance(idx[0], SliceVal)
+                    and idx[0].step in (None, 1) and isinstance(idx[1], int)):
+                # column store over a row range of the view: write through to the root array
+                start, stop = slice_bounds(idx[0], v.n)
+                rs = SliceVal(_root_index(v, start), _root_index(v, stop), None)
+                return arr_setitem(interp, _root(v), (rs, idx[1]), val, numba, node)
             raise OutOfSubset('store through a numpy view (slice of another array)')
         return arr_setitem(interp, v, idx, val, numba, node)
     if isinstance(v, Obj) and v.cls is not None:
@@ -375,6 +383,17 @@ def _root(a):
     return a
 
 
+def _live_root(a):
+    """the mutable array whose current content `a` reads when evaluated (views and column slices of views)"""
+    while True:
+        if getattr(a, 'vbase', None) is not None:
+            a = a.vbase
+        elif getattr(a, 'view', False) and a.prov and a.prov[0] == 'rowmap' and isinstance(a.prov[2], Arr) and a.prov[2] is not a:
+            a = a.prov[2]
+        else:
+            return a
+
+
 def _root_index(a, i):
     while getattr(a, 'vbase', None) is not None:
         i = ops.arith('+', i, a.voff)
@@ -382,9 +401,28 @@ def _root_index(a, i):
     return i
 
 
+def _frozen_source(v, val):
+    """numpy copies the right-hand side at assignment time: a source that is a live view of the array being stored into
+    must keep reading the array as it was before the store"""
+    if not isinstance(val, Arr) or _live_root(val) is not v or val is v:
+        return val
+    before = v.fn
+    sf = val.fn
+
+    def fn(k):
+        cur = v.fn
+        v.fn = before
+        try:
+            return sf(k)
+        finally:
+            v.fn = cur
+    return Arr(val.n, fn, np=val.np, cols=val.cols)
+
+
 def arr_setitem(interp, v, idx, val, numba, node):
     from .interp import SliceVal
     ctx = interp.ctx
+    val = _frozen_source(v, val)
     old = v.fn
     prov0 = v.prov
     v.prov = None       # re-established below for the single-row store
@@ -478,24 +516,55 @@ def arr_setitem(interp, v, idx, val, numba, node):
     raise OutOfSubset(f'array store index {kind_of(idx)}')
 
 
+GUARDS = []      # conditions of the lazily evaluated selections being evaluated (used by read-recording inputs)
+
+
 def _sel(c, a, b):
     """ite on a bool|Sym condition with lazily evaluated arms (callables)."""
     if isinstance(c, bool):
         x = a if c else b
         return x() if callable(x) else x
-    a = a() if callable(a) else a
-    b = b() if callable(b) else b
+    if callable(a):
+        GUARDS.append(c.t)
+        try:
+            a = a()
+        finally:
+            GUARDS.pop()
+    if callable(b):
+        GUARDS.append(z3.Not(c.t))
+        try:
+            b = b()
+        finally:
+            GUARDS.pop()
     return ops.ite(c.t, a, b)
 
 
 # ---------------------------------------------------------------------------- elementwise
+def frozen_fn(a):
+    """element function of `a` as of now: a derived numpy array holds values, so a later store into the array `a` is a
+    view of must not show through"""
+    r = _live_root(a)
+    if r is a:
+        return a.fn          # closures over the current fn are snapshots already
+    before, sf = r.fn, a.fn
+
+    def fn(k):
+        cur = r.fn
+        r.fn = before
+        try:
+            return sf(k)
+        finally:
+            r.fn = cur
+    return fn
+
+
 def elementwise1(interp, f, a):
     if isinstance(a, Vec):
         return Vec([f(x) for x in a.e])
     if isinstance(a, Arr):
         if a.cols is not None:
-            return Arr(a.n, (lambda k, fn=a.fn: Vec([f(x) for x in fn(k).e])), np=True, cols=a.cols)
-        return Arr(a.n, (lambda k, fn=a.fn: f(fn(k))), np=True)
+            return Arr(a.n, (lambda k, fn=frozen_fn(a): Vec([f(x) for x in fn(k).e])), np=True, cols=a.cols)
+        return Arr(a.n, (lambda k, fn=frozen_fn(a): f(fn(k))), np=True)
     return f(a)
 
 
@@ -531,28 +600,28 @@ def elementwise2(interp, f, a, b):
             prov = None
             if a.prov and b.prov and a.prov[0] == 'rowmap' and b.prov[0] == 'rowmap' and same_base(a.prov[2], b.prov[2]):
                 prov = ('rowmap', (lambda row, g1=a.prov[1], g2=b.prov[1]: f(g1(row), g2(row))), a.prov[2])
-            return Arr(a.n, (lambda k, fa=a.fn, fb=b.fn: f(fa(k), fb(k))), np=True, prov=prov)
-        return Arr(a.n, (lambda k, fa=a.fn, fb=b.fn: Vec([f(x, y) for x, y in zip(fa(k).e, fb(k).e)])), np=True,
+            return Arr(a.n, (lambda k, fa=frozen_fn(a), fb=frozen_fn(b): f(fa(k), fb(k))), np=True, prov=prov)
+        return Arr(a.n, (lambda k, fa=frozen_fn(a), fb=frozen_fn(b): Vec([f(x, y) for x, y in zip(fa(k).e, fb(k).e)])), np=True,
                    cols=a.cols)
     if isinstance(a, Arr) and isinstance(b, Vec) or isinstance(b, Arr) and isinstance(a, Vec):
         arr, vec, flip = (a, b, False) if isinstance(a, Arr) else (b, a, True)
         if arr.cols is not None and len(vec.e) == arr.cols:
             g = (lambda x, y: f(y, x)) if flip else f
-            return Arr(arr.n, (lambda k, fn=arr.fn: Vec([g(x, y) for x, y in zip(fn(k).e, vec.e)])), np=True,
+            return Arr(arr.n, (lambda k, fn=frozen_fn(arr): Vec([g(x, y) for x, y in zip(fn(k).e, vec.e)])), np=True,
                        cols=arr.cols)
         if len(vec.e) == 1:
             return elementwise2(interp, f, a if not flip else vec.e[0], b if flip else vec.e[0])
         return elementwise2(interp, f, as_arr(a), as_arr(b))
     if isinstance(a, Arr):
         if a.cols is not None:
-            return Arr(a.n, (lambda k, fn=a.fn: Vec([f(x, b) for x in fn(k).e])), np=True, cols=a.cols)
+            return Arr(a.n, (lambda k, fn=frozen_fn(a): Vec([f(x, b) for x in fn(k).e])), np=True, cols=a.cols)
         prov = ('rowmap', (lambda row, g=a.prov[1]: f(g(row), b)), a.prov[2]) if a.prov and a.prov[0] == 'rowmap' else None
-        return Arr(a.n, (lambda k, fn=a.fn: f(fn(k), b)), np=True, prov=prov)
+        return Arr(a.n, (lambda k, fn=frozen_fn(a): f(fn(k), b)), np=True, prov=prov)
     if isinstance(b, Arr):
         if b.cols is not None:
-            return Arr(b.n, (lambda k, fn=b.fn: Vec([f(a, y) for y in fn(k).e])), np=True, cols=b.cols)
+            return Arr(b.n, (lambda k, fn=frozen_fn(b): Vec([f(a, y) for y in fn(k).e])), np=True, cols=b.cols)
         prov = ('rowmap', (lambda row, g=b.prov[1]: f(a, g(row))), b.prov[2]) if b.prov and b.prov[0] == 'rowmap' else None
-        return Arr(b.n, (lambda k, fn=b.fn: f(a, fn(k))), np=True, prov=prov)
+        return Arr(b.n, (lambda k, fn=frozen_fn(b): f(a, fn(k))), np=True, prov=prov)
     return f(a, b)
 
 
@@ -965,6 +1034,8 @@ def np_astype(interp, v, t):
 # ---------------------------------------------------------------------------- builtins
 def _b_len(i, a, k):
     v = a[0]
+    if isinstance(v, PvObject):
+        return v.pv_len(i)
     if isinstance(v, (list, tuple, dict, str, set)):
         return len(v)
     if isinstance(v, Vec):
@@ -1076,6 +1147,11 @@ def _b_isinstance(i, a, k):
         name = t.name if isinstance(t, (TypeRef, ExtRef)) else None
         if name is None:
             raise OutOfSubset(f'isinstance against {t!r}')
+        hooked = [r for r in (hk(v, name) for hk in ISINSTANCE_HOOKS) if r is not None]
+        if hooked:
+            if any(hooked):
+                return True
+            continue
         if name == 'slice' and isinstance(v, SliceVal):
             return True
         if name == 'int' and (isinstance(v, int) or isinstance(v, Sym) and v.k in ('int', 'bool')):
@@ -1385,6 +1461,9 @@ def normalize_ext(name):
     return name
 
 
+EXTRA_CONSTS = {}
+
+
 def ext_const(name):
     from .interp import TypeRef, ExcRef
     table = {
@@ -1394,6 +1473,8 @@ def ext_const(name):
         'numpy.floating': TypeRef('numpy.floating'),
         'numpy.newaxis': None,
     }
+    if name in EXTRA_CONSTS:
+        return (EXTRA_CONSTS[name],)
     if name in table:
         return (table[name],)
     return None
@@ -1645,6 +1726,51 @@ def _np_array_equal(i, a, k):
     return ops.seq_equal(Arr(xa.n, xa.fn, np=False), Arr(ya.n, ya.fn, np=False))
 
 
+def _np_array_equiv(i, a, k):
+    """numpy.array_equiv: shapes broadcastable (here: equal row counts, or one operand has a single row) and all equal"""
+    x, y = a[0], a[1]
+    if x is None or y is None:
+        return x is None and y is None
+    xa, ya = as_arr(x), as_arr(y)
+    if xa.cols != ya.cols:
+        raise OutOfSubset('array_equiv between arrays of different rank')
+    if not (isinstance(xa.n, int) and isinstance(ya.n, int)):
+        raise OutOfSubset('array_equiv of symbolic-length arrays')
+    if xa.n == ya.n:
+        return _np_array_equal(i, a, k)
+    if xa.n != 1 and ya.n != 1:
+        return False
+    one, many = (xa, ya) if xa.n == 1 else (ya, xa)
+
+    def row_eq(p, q):
+        if isinstance(p, Vec) and isinstance(q, Vec):
+            r = True
+            for u, w in zip(p.e, q.e):
+                r = ops.land(r, ops.equal(u, w))
+            return r
+        return ops.equal(p, q)
+    r = True
+    first = one.fn(0)
+    for j in range(many.n):
+        r = ops.land(r, row_eq(first, many.fn(j)))
+    return r
+
+
+def _np_gcd_reduce(i, a, k):
+    import math as _m
+    xs = i.iterate(a[0])
+    if not all(isinstance(x, int) and not isinstance(x, bool) for x in xs):
+        raise OutOfSubset('gcd of symbolic values')
+    used('numpy.gcd.reduce = greatest common divisor (trusted)')
+    r = 0
+    for x in xs:
+        r = _m.gcd(r, x)
+    return r
+
+
+ISINSTANCE_HOOKS = []
+
+
 def _np_isnan(i, a, k):
     return _b_isnan(i, a, k)
 
@@ -1849,7 +1975,7 @@ def ext_call(name):
             'numpy.ceil': _np_ceil, 'numpy.all': np_all, 'numpy.any': np_any, 'numpy.where': _np_where,
             'numpy.maximum': _np_maximum, 'numpy.minimum': _np_minimum, 'numpy.max': _np_max, 'numpy.min': _np_min,
             'numpy.amax': _np_max, 'numpy.amin': _np_min, 'numpy.nanmax': _np_max, 'numpy.nanmin': _np_min,
-            'numpy.sum': _np_sum, 'numpy.abs': _b_abs, 'numpy.absolute': _b_abs, 'numpy.array_equal': _np_array_equal,
+            'numpy.sum': _np_sum, 'numpy.abs': _b_abs, 'numpy.absolute': _b_abs, 'numpy.array_equal': _np_array_equal, 'numpy.array_equiv': _np_array_equiv, 'numpy.gcd.reduce': _np_gcd_reduce,
             'numpy.isnan': _np_isnan, 'numpy.round': _np_round, 'numpy.copy': lambda i, a, k: np_copy(a[0]),
             'numpy.sqrt': lambda i, a, k: elementwise1(i, lambda x: np_sqrt_scalar(i, x), a[0]),
             'math.isnan': _math_isnan, 'math.floor': _math_floor, 'math.ceil': _math_ceil, 'math.sqrt': _math_sqrt,
